@@ -305,6 +305,26 @@ def check(tier: str) -> int:
     run.evaluations += 1
     if bad_scale:
         run.violation("scale:backlog", bad_scale, {"scale": True})
+    # C14 does not quantify over the process environment: with any SEMANTIVA_* variable the transport consults (observed,
+    # not guessed) set to a few plausible values, nothing may be lost either
+    from .. import envprobe
+
+    def touch_transport():
+        import semantiva.execution.transport.in_memory as im
+        t = im.InMemorySemantivaTransport()
+        t.connect()
+        t.publish("a", data=1, context=None)
+        list(t.subscribe("a"))
+        list(t.subscribe("*"))
+        t.close()
+    names = envprobe.discover(touch_transport)
+    run.extra["environment_variables_consulted"] = names
+    for assign in envprobe.settings(names):
+        with envprobe.with_env(assign):
+            run.evaluations += 1
+            bad_env = scale_check()
+            if bad_env:
+                run.violation(f"environment:{next(iter(assign))}", f"with {assign} in the process environment: {bad_env}", {"env": assign})
     run.traces_validated = len(histories) - rejected
     run.extra["schedules"] = {"prefix_exhaustive_L": L, "total": len(histories), "rejected_by_spec": rejected,
                               "max_steps": max(h["steps"] for h in histories)}
